@@ -2,7 +2,7 @@
    All statements quantify over EVERY request reader [read_req], EVERY response writer [write_out]
    (result + bytes the socket accepted) and every connection state; sequences by induction. *)
 From SV Require Import Base.Bytes Base.IO Model.Conn Spec.ConnSpec Proofs.ConnP.
-From SV Require Import Base.SrcAst Generated.SourceParams Tie.ConnTie Tie.ConnGuardTie.
+From SV Require Import Base.SrcAst Generated.SourceParams Tie.ConnTie Tie.ConnGuardTie Tie.WriteResponseTie.
 
 Section C05.
 Variables payload resp : Type.
@@ -152,6 +152,16 @@ Proof. exact write_response_guards_tie. Qed.
 Theorem c05_guards_translation_complete : src_problems_conn_guards = 0%nat.
 Proof. exact conn_guards_translated. Qed.
 
+(* C05.src3  HttpConn::write_response after its guard, as TRANSLATED ON THIS RUN (the 500..=599 close range, the per-call
+   byte counter, the statements of the Ok branch, shutdown iff the counter is positive on Err), interpreted over the
+   connection machine, is the machine's write_response for every connection, response and serialiser outcome *)
+Theorem c05_write_response_is_the_source :
+  forall (resp : Type) (resp_code : resp -> N) (write_out : resp -> bool -> option herr * bytes) c r,
+    m_eval_write_response resp resp_code write_out c r = Conn.write_response resp resp_code write_out c r.
+Proof. exact machine_write_response_tie. Qed.
+Theorem c05_write_response_translation_complete : src_problems_write_response = 0%nat.
+Proof. exact write_response_translated. Qed.
+
 Print Assumptions c05_misuse_unchanged.
 Print Assumptions c05_wire_effect.
 Print Assumptions c05_nothing_after_shutdown.
@@ -171,3 +181,5 @@ Print Assumptions c05_source_read_request_guards.
 Print Assumptions c05_source_write_continue_guards.
 Print Assumptions c05_source_write_response_guards.
 Print Assumptions c05_guards_translation_complete.
+Print Assumptions c05_write_response_is_the_source.
+Print Assumptions c05_write_response_translation_complete.
